@@ -18,12 +18,13 @@ pub trait BlockEncryptMut {}
 pub trait KeyIvInit {}
 
 //@trusted T3 OpenPGP-CFB decryption is an UNINTERPRETED length-preserving function cfb_dec(bs, key, iv, ciphertext) of the whole ciphertext fed so far whose output byte i depends only on ciphertext[0..=i] (prefix law: cfb_dec(ct1 ++ ct2) starts with cfb_dec(ct1)); nothing else about the cipher is assumed
-pub uninterp spec fn cfb_dec(bs: nat, key: Seq<u8>, iv: Seq<u8>, ct: Seq<u8>) -> Seq<u8>;
 //@trusted T3 CFB encryption likewise: cfb_enc(bs, key, iv, plaintext) is uninterpreted, length preserving and prefix-stable
-pub uninterp spec fn cfb_enc(bs: nat, key: Seq<u8>, iv: Seq<u8>, pt: Seq<u8>) -> Seq<u8>;
 
 pub mod cfb_ax {
     use super::*;
+    pub uninterp spec fn cfb_dec(bs: nat, key: Seq<u8>, iv: Seq<u8>, ct: Seq<u8>) -> Seq<u8>;
+    pub uninterp spec fn cfb_enc(bs: nat, key: Seq<u8>, iv: Seq<u8>, pt: Seq<u8>) -> Seq<u8>;
+    pub uninterp spec fn sha1(m: Seq<u8>) -> Seq<u8>;
     #[verifier::external_body]
     pub broadcast proof fn axiom_cfb_dec_len(bs: nat, key: Seq<u8>, iv: Seq<u8>, ct: Seq<u8>)
         ensures #[trigger] cfb_dec(bs, key, iv, ct).len() == ct.len() {}
@@ -41,6 +42,7 @@ pub mod cfb_ax {
         ensures #[trigger] sha1(m).len() == 20 {}
 }
 pub use cfb_ax::*;
+pub use bytes_ax::*;
 broadcast use cfb_ax::axiom_cfb_dec_len, cfb_ax::axiom_cfb_enc_len, cfb_ax::axiom_sha1_len;
 
 /// what a piecewise decryptor emits for the chunk `c` after having been fed `fed`
@@ -108,8 +110,16 @@ impl<M: BlockSizeUser> BufEncryptor<M> {
 }
 impl<M> KeyIvInit for BufEncryptor<M> {}
 
+//@trusted T2 `impl AsRef<[u8]>` arguments (Digest::update) are modelled by the trait AsBytes: slices, arrays, Vec<u8>, BytesMut and references to them denote their byte content
+pub trait AsBytes { spec fn bytes(&self) -> Seq<u8>; }
+impl AsBytes for &[u8] { open spec fn bytes(&self) -> Seq<u8> { (*self)@ } }
+impl<const N: usize> AsBytes for [u8; N] { open spec fn bytes(&self) -> Seq<u8> { self@ } }
+impl<const N: usize> AsBytes for &[u8; N] { open spec fn bytes(&self) -> Seq<u8> { (*self)@ } }
+impl AsBytes for &Vec<u8> { open spec fn bytes(&self) -> Seq<u8> { (*self)@ } }
+impl AsBytes for &BytesMut { open spec fn bytes(&self) -> Seq<u8> { (*self)@ } }
+impl AsBytes for &&mut BytesMut { open spec fn bytes(&self) -> Seq<u8> { (**self)@ } }
+
 //@trusted T3 sha1::Sha1 is a ghost byte accumulator (shims/digest.rs style): default() starts empty, update(d) appends d, finalize() returns sha1(view()) where sha1 is an UNINTERPRETED function into 20 octets
-pub uninterp spec fn sha1(m: Seq<u8>) -> Seq<u8>;
 
 #[verifier::external_body]
 pub struct Sha1 { _p: u8 }
@@ -118,7 +128,7 @@ impl Sha1 {
     #[verifier::external_body]
     pub fn default() -> (r: Sha1) ensures r.view() == Seq::<u8>::empty() { unimplemented!() }
     #[verifier::external_body]
-    pub fn update(&mut self, data: &[u8]) ensures final(self).view() == old(self).view() + data@ { unimplemented!() }
+    pub fn update<A: AsBytes>(&mut self, data: A) ensures final(self).view() == old(self).view() + data.bytes() { unimplemented!() }
     #[verifier::external_body]
     pub fn finalize(self) -> (r: Sha1Output) ensures r@ == sha1(self.view()), r@.len() == 20 { unimplemented!() }
 }
@@ -126,6 +136,11 @@ impl Sha1 {
 #[verifier::external_body]
 pub struct Sha1Output { _p: u8 }
 impl View for Sha1Output { type V = Seq<u8>; uninterp spec fn view(&self) -> Seq<u8>; }
+impl core::ops::Deref for Sha1Output {
+    type Target = [u8];
+    #[verifier::external_body]
+    fn deref(&self) -> (r: &[u8]) ensures r@ == self@ { unimplemented!() }
+}
 impl Sha1Output {
     #[verifier::external_body]
     pub fn into(self) -> (r: [u8; 20]) ensures r@ == self@ { unimplemented!() }
@@ -170,18 +185,15 @@ impl core::convert::From<Choice> for bool {
     fn from(c: Choice) -> (r: bool) { c.b }
 }
 pub trait ConstantTimeEq {
-    spec fn cv(&self) -> Seq<u8>;
-    fn ct_eq(&self, other: &Self) -> (r: Choice) ensures r.b == (self.cv() == other.cv());
+    spec fn ct_same(&self, other: &Self) -> bool;
+    fn ct_eq(&self, other: &Self) -> (r: Choice) ensures r.b == self.ct_same(other);
 }
 impl ConstantTimeEq for u8 {
-    open spec fn cv(&self) -> Seq<u8> { seq![*self] }
-    fn ct_eq(&self, other: &u8) -> (r: Choice) {
-        proof { assert(seq![*self][0] == *self); assert(seq![*other][0] == *other); }
-        Choice { b: *self == *other }
-    }
+    open spec fn ct_same(&self, other: &u8) -> bool { *self == *other }
+    fn ct_eq(&self, other: &u8) -> (r: Choice) { Choice { b: *self == *other } }
 }
 impl ConstantTimeEq for [u8] {
-    open spec fn cv(&self) -> Seq<u8> { self@ }
+    open spec fn ct_same(&self, other: &[u8]) -> bool { self@ == other@ }
     #[verifier::external_body]
     fn ct_eq(&self, other: &[u8]) -> (r: Choice) { unimplemented!() }
 }
@@ -207,6 +219,28 @@ pub assume_specification<T> [core::mem::replace::<T>] (dest: &mut T, src: T) -> 
     ensures r == *old(dest), *final(dest) == src;
 pub assume_specification<T: Clone> [<[T]>::to_vec] (s: &[T]) -> (r: Vec<T>)
     ensures r@.len() == s@.len(), forall|i: int| 0 <= i < s@.len() ==> cloned(#[trigger] s@[i], r@[i]);
+
+//@trusted T2 Bytes::from(Vec<u8>) / Vec<u8>::into() keeps the content
+pub mod bytes_ax {
+    use super::*;
+    pub uninterp spec fn bytes_of(s: Seq<u8>) -> Bytes;
+    #[verifier::external_body]
+    pub broadcast proof fn axiom_bytes_of(s: Seq<u8>) ensures (#[trigger] bytes_of(s))@ == s {}
+}
+impl vstd::std_specs::convert::FromSpecImpl<Vec<u8>> for Bytes {
+    open spec fn obeys_from_spec() -> bool { true }
+    open spec fn from_spec(v: Vec<u8>) -> Bytes { bytes_of(v@) }
+}
+impl core::convert::From<Vec<u8>> for Bytes {
+    #[verifier::external_body]
+    fn from(v: Vec<u8>) -> (r: Bytes) { unimplemented!() }
+}
+
+//@trusted T3 rand::{Rng, CryptoRng}: fill_bytes overwrites the slice with arbitrary octets (length preserved); nothing is assumed about their values
+pub trait CryptoRng {}
+pub trait Rng {
+    fn fill_bytes(&mut self, dest: &mut [u8]) ensures final(dest)@.len() == old(dest)@.len();
+}
 
 //@trusted T2 zeroize::Zeroizing<Vec<u8>> is a transparent wrapper (wiping on drop is not modelled)
 pub struct Zeroizing<T> { pub v: T }
